@@ -1,0 +1,65 @@
+//go:build verif
+
+// Contracts (machine-checked by /verif/engine, see /verif/DESIGN.md). Comment-only file.
+package brigadier
+
+// ---- C04: numeric argument bounds of the command graph (the AvailableCommands pair is outside the codec-pair fragment) ----
+// The flag byte has bit 0x01 exactly when a minimum follows and bit 0x02 exactly when a maximum follows; the encoder
+// passes (hasMin, hasMax) in that order and writes the minimum first, each only behind its own flag. Closures are named by
+// the package variable and field they initialise (resolved by the engine), not by their init$N ordinal.
+//@ func flags
+//@   props C04
+//@   modifies nothing
+//@   ensures [min-is-bit-0-max-is-bit-1] (hasMin == ((result & HasMinIntFlag) != 0)) && (hasMax == ((result & HasMaxIntFlag) != 0)) && (result & 252) == 0
+//@ func Float64ArgumentPropertyCodec::EncodeFn
+//@   props C04
+//@   at-call flags as fl
+//@   at-call WriteByte as fb: assert [flag-byte-first] called(fl) && arg1 == res(fl) && !called(wmin) && !called(wmax)
+//@   at-call WriteFloat64#1 as wmin: assert [minimum-only-behind-the-min-flag] called(fb) && arg(fl, 0) && !called(wmax)
+//@   at-call WriteFloat64#2 as wmax: assert [maximum-only-behind-the-max-flag] called(fb) && arg(fl, 1)
+//@   ensures [flagged-bounds-are-written] result == nil && called(fl) ==> (arg(fl, 0) == called(wmin)) && (arg(fl, 1) == called(wmax))
+//@ func Float64ArgumentPropertyCodec::DecodeFn
+//@   props C04
+//@   at-call ReadByte as fb
+//@   at-call ReadFloat64#1 as rmin: assert [minimum-read-iff-bit-0] called(fb) && res(fb, 1) == nil && (res(fb, 0) & HasMinIntFlag) != 0 && !called(rmax)
+//@   at-call ReadFloat64#2 as rmax: assert [maximum-read-iff-bit-1] called(fb) && res(fb, 1) == nil && (res(fb, 0) & HasMaxIntFlag) != 0
+//@   ensures [flagged-bounds-are-read] result.1 == nil ==> called(fb) && (((res(fb, 0) & HasMinIntFlag) != 0) == called(rmin)) && (((res(fb, 0) & HasMaxIntFlag) != 0) == called(rmax))
+//@ func Float32ArgumentPropertyCodec::EncodeFn
+//@   props C04
+//@   at-call flags as fl
+//@   at-call WriteByte as fb: assert [flag-byte-first] called(fl) && arg1 == res(fl) && !called(wmin) && !called(wmax)
+//@   at-call WriteFloat32#1 as wmin: assert [minimum-only-behind-the-min-flag] called(fb) && arg(fl, 0) && !called(wmax)
+//@   at-call WriteFloat32#2 as wmax: assert [maximum-only-behind-the-max-flag] called(fb) && arg(fl, 1)
+//@   ensures [flagged-bounds-are-written] result == nil && called(fl) ==> (arg(fl, 0) == called(wmin)) && (arg(fl, 1) == called(wmax))
+//@ func Float32ArgumentPropertyCodec::DecodeFn
+//@   props C04
+//@   at-call ReadByte as fb
+//@   at-call ReadFloat32#1 as rmin: assert [minimum-read-iff-bit-0] called(fb) && res(fb, 1) == nil && (res(fb, 0) & HasMinIntFlag) != 0 && !called(rmax)
+//@   at-call ReadFloat32#2 as rmax: assert [maximum-read-iff-bit-1] called(fb) && res(fb, 1) == nil && (res(fb, 0) & HasMaxIntFlag) != 0
+//@   ensures [flagged-bounds-are-read] result.1 == nil ==> called(fb) && (((res(fb, 0) & HasMinIntFlag) != 0) == called(rmin)) && (((res(fb, 0) & HasMaxIntFlag) != 0) == called(rmax))
+//@ func Int32ArgumentPropertyCodec::EncodeFn
+//@   props C04
+//@   at-call flags as fl
+//@   at-call WriteByte as fb: assert [flag-byte-first] called(fl) && arg1 == res(fl) && !called(wmin) && !called(wmax)
+//@   at-call WriteInt32#1 as wmin: assert [minimum-only-behind-the-min-flag] called(fb) && arg(fl, 0) && arg1 == i.Min && !called(wmax)
+//@   at-call WriteInt32#2 as wmax: assert [maximum-only-behind-the-max-flag] called(fb) && arg(fl, 1) && arg1 == i.Max
+//@   ensures [flagged-bounds-are-written] result == nil && called(fl) ==> (arg(fl, 0) == called(wmin)) && (arg(fl, 1) == called(wmax))
+//@ func Int32ArgumentPropertyCodec::DecodeFn
+//@   props C04
+//@   at-call ReadByte as fb
+//@   at-call ReadInt32#1 as rmin: assert [minimum-read-iff-bit-0] called(fb) && res(fb, 1) == nil && (res(fb, 0) & HasMinIntFlag) != 0 && !called(rmax)
+//@   at-call ReadInt32#2 as rmax: assert [maximum-read-iff-bit-1] called(fb) && res(fb, 1) == nil && (res(fb, 0) & HasMaxIntFlag) != 0
+//@   ensures [flagged-bounds-are-read] result.1 == nil ==> called(fb) && (((res(fb, 0) & HasMinIntFlag) != 0) == called(rmin)) && (((res(fb, 0) & HasMaxIntFlag) != 0) == called(rmax))
+//@ func Int64ArgumentPropertyCodec::EncodeFn
+//@   props C04
+//@   at-call flags as fl
+//@   at-call WriteByte as fb: assert [flag-byte-first] called(fl) && arg1 == res(fl) && !called(wmin) && !called(wmax)
+//@   at-call WriteInt64#1 as wmin: assert [minimum-only-behind-the-min-flag] called(fb) && arg(fl, 0) && arg1 == i.Min && !called(wmax)
+//@   at-call WriteInt64#2 as wmax: assert [maximum-only-behind-the-max-flag] called(fb) && arg(fl, 1) && arg1 == i.Max
+//@   ensures [flagged-bounds-are-written] result == nil && called(fl) ==> (arg(fl, 0) == called(wmin)) && (arg(fl, 1) == called(wmax))
+//@ func Int64ArgumentPropertyCodec::DecodeFn
+//@   props C04
+//@   at-call ReadByte as fb
+//@   at-call ReadInt64#1 as rmin: assert [minimum-read-iff-bit-0] called(fb) && res(fb, 1) == nil && (res(fb, 0) & HasMinIntFlag) != 0 && !called(rmax)
+//@   at-call ReadInt64#2 as rmax: assert [maximum-read-iff-bit-1] called(fb) && res(fb, 1) == nil && (res(fb, 0) & HasMaxIntFlag) != 0
+//@   ensures [flagged-bounds-are-read] result.1 == nil ==> called(fb) && (((res(fb, 0) & HasMinIntFlag) != 0) == called(rmin)) && (((res(fb, 0) & HasMaxIntFlag) != 0) == called(rmax))
